@@ -75,6 +75,7 @@ fn main() {
         "worker_fates" => worker::fates(&args),
         "factory_step" => worker::factory_step(&args),
         "factory_finished" => worker::factory_finished(&args),
+        "factory_pool" => worker::factory_pool(&args),
         "routing" => routing::run(&args),
         "outport" => outport::run(&args),
         "rpc" => rpc::run(&args),
